@@ -24,16 +24,29 @@ from props import _mountplan as M
 
 
 def run(ctx):
-    quick = ctx.quick
     workers = ctx.pick(8, 16)
+    # VERIF_C28_PARTS (development / mutation runs only): which repo-dependent parts to run.  The design part
+    # does not depend on the tree under test; without it no verdict is produced for the unchanged tree.
+    parts = set(os.environ.get("VERIF_C28_PARTS", "design,plan,codec").split(","))
     # ---- 1. design --------------------------------------------------------------------------------
-    cfgs = ctx.pick([("MountPlan_mc.cfg", 900)],
-                    [("MountPlan_mc.cfg", 1800), ("MountPlan_mc_rootfs.cfg", 1800), ("MountPlan_mc_e3.cfg", 3000),
-                     ("MountPlan_mc_thorough.cfg", 3000)])
-    mcs = M.design(ctx, cfgs, workers)
-    rev_case = M.reverse_counterexample(ctx, workers)
-    ctx.log("MountPlan_rev.cfg: counterexample history %s" % json.dumps(rev_case["updates"]))
-    sim_cases, sim_pred = M.simulate_histories(ctx, ctx.pick(40, 600), ctx.seed)
+    if "design" in parts:
+        cfgs = ctx.pick([("MountPlan_mc.cfg", 900)],
+                        [("MountPlan_mc.cfg", 1800), ("MountPlan_mc_rootfs.cfg", 1800), ("MountPlan_mc_e3.cfg", 3000),
+                         ("MountPlan_mc_thorough.cfg", 3000)])
+        mcs = M.design(ctx, cfgs, workers)
+        rev_case = M.reverse_counterexample(ctx, workers)
+        ctx.log("MountPlan_rev.cfg: counterexample history %s" % json.dumps(rev_case["updates"]))
+        sim_cases, sim_pred = M.simulate_histories(ctx, ctx.pick(40, 600), ctx.seed)
+    else:
+        mcs = [{"cfg": "(design part skipped: VERIF_C28_PARTS)", "generated": 1, "distinct": 1, "depth": 0, "wall_s": 0}]
+        e = {"p": "a/g", "typ": "file", "origin": "layout", "v": 1}
+        rev_case, sim_cases, sim_pred = {"case": "tlc-rev", "rootfs": False, "updates": [[e], [e], []]}, [], {}
+    if "plan" not in parts:
+        cod = M.codec(ctx, ctx.pick("MountCodec.cfg", "MountCodec_thorough.cfg"), ctx.pick(2000, 40000))
+        return Result(level="model_checking", coverage={"states": 1, "transitions": 1, "traces_validated_against_impl": cod["rows"],
+                                                        "samples": cod["samples"], "codec": {k: v for k, v in cod.items() if k != "violations"},
+                                                        "partial_run": sorted(parts)},
+                      assumptions=["partial run (VERIF_C28_PARTS)"], violations=cod["violations"])
 
     # ---- 2. conformance: real planner / real update loop ---------------------------------------------
     binary = M.build_driver(ctx)
@@ -82,7 +95,10 @@ def run(ctx):
                         mism_examples.append({"history": M.hist_prefix(ln), "spec": want, "real": got})
 
     # ---- 3. codec ---------------------------------------------------------------------------------------
-    cod = M.codec(ctx, ctx.pick("MountCodec.cfg", "MountCodec_thorough.cfg"), ctx.pick(2000, 40000))
+    if "codec" in parts:
+        cod = M.codec(ctx, ctx.pick("MountCodec.cfg", "MountCodec_thorough.cfg"), ctx.pick(2000, 40000))
+    else:
+        cod = {"violations": [], "rows": 0, "drift": 0, "random": 0, "real_failures": 0, "spec_predicted_failures": 0, "samples": []}
     violations += cod["violations"]
     ctx.log("codec: %d table rows (%d cells differ from the spec), %d random profiles, real failures %d (spec predicts %d)"
             % (cod["rows"], cod["drift"], cod["random"], cod["real_failures"], cod["spec_predicted_failures"]))
@@ -110,6 +126,8 @@ def run(ctx):
         "samples": val["samples"] + cod["samples"][:3],
     }
     notes = []
+    if parts != {"design", "plan", "codec"}:
+        notes.append("PARTIAL RUN (VERIF_C28_PARTS=%s): not a verdict for the whole property" % ",".join(sorted(parts)))
     if not rev_reproduced:
         notes.append("TLC's reverse-keep counterexample did NOT reproduce on the real code (tags: %s)" % rev_tags)
     if differ:
